@@ -382,7 +382,7 @@ func (r *runner) run(sc script) (viol []violation, lookups int) {
 func TestScripts(t *testing.T) {
 	maxLen := 4
 	if os.Getenv("VERIF_TIER") == "thorough" {
-		maxLen = 5
+		maxLen = 6
 	}
 	all := enumerate(maxLen)
 	shard, _ := strconv.Atoi(os.Getenv("VERIF_SHARD"))
